@@ -151,6 +151,7 @@ def gen_desc(rng):
     else:
         d.update({'override': rng.random() < 0.3,
                   'init': rng.choice(['', '', 'default', 'delete', '0'])})
+    d['lean'] = rng.random() < 0.4
     if d.get('params') and rng.random() < 0.2:
         # the description is completed in place after it has been rendered once (a preview, a
         # log line): the last parameter is appended to the object's own parameter list
@@ -209,21 +210,37 @@ def build_scope(scope):
 
 
 def build_desc(d, scope_obj=None):
+    """The real object of a description.  With d['lean'] every argument that equals its
+    documented default is left out, so the object runs on the class's own defaults (empty
+    parameter list, empty member initialiser list, ...)."""
     from dznpy import cpp_gen as G  # pylint: disable=import-outside-toplevel
     scope = scope_obj if scope_obj is not None else build_scope(d['scope'])
+    lean = bool(d.get('lean'))
+
+    def drop_defaults(kwargs, defaults):
+        if not lean:
+            return kwargs
+        return {k: v for k, v in kwargs.items() if k not in defaults or v != defaults[k]}
+
     if d['kind'] == 'function':
+        kwargs = dict(params=[build_param(p) for p in d['params']],
+                      prefix=G.FunctionPrefix(d['prefix']), cav=d['cav'],
+                      override=d['override'], initialization=d['init'],
+                      contents=d['contents'], scope=scope)
+        defaults = dict(params=[], prefix=G.FunctionPrefix.MEMBER_FUNCTION, cav='',
+                        override=False, initialization='', contents='', scope=None)
         return G.Function(return_type=build_type(d['ret']), name=d['name'],
-                          params=[build_param(p) for p in d['params']],
-                          prefix=G.FunctionPrefix(d['prefix']), cav=d['cav'],
-                          override=d['override'], initialization=d['init'],
-                          contents=d['contents'], scope=scope)
+                          **drop_defaults(kwargs, defaults))
     if d['kind'] == 'ctor':
-        return G.Constructor(scope=scope, explicit=d['explicit'],
-                             params=[build_param(p) for p in d['params']],
-                             initialization=d['init'], member_initlist=list(d['mil']),
-                             contents=d['contents'])
-    return G.Destructor(scope=scope, override=d['override'], initialization=d['init'],
-                        contents=d['contents'])
+        kwargs = dict(explicit=d['explicit'], params=[build_param(p) for p in d['params']],
+                      initialization=d['init'], member_initlist=list(d['mil']),
+                      contents=d['contents'])
+        defaults = dict(explicit=False, params=[], initialization='', member_initlist=[],
+                        contents='')
+        return G.Constructor(scope=scope, **drop_defaults(kwargs, defaults))
+    kwargs = dict(override=d['override'], initialization=d['init'], contents=d['contents'])
+    defaults = dict(override=False, initialization='', contents='')
+    return G.Destructor(scope=scope, **drop_defaults(kwargs, defaults))
 
 
 def outside_documented_domain(d):
@@ -380,6 +397,8 @@ def check_desc(d):
             _ = obj.as_decl, obj.as_def
             obj.params.append(build_param(d['params'][-1]))
             bump('descriptions_completed_in_place_after_rendering')
+            if d.get('lean') and len(d['params']) == 1:
+                bump('default_parameter_list_extended_in_place')
         else:
             obj = build_desc(d)
         decl, dfn = obj.as_decl, obj.as_def
@@ -1319,6 +1338,7 @@ def main(tier: str) -> int:
                 'blocks_class', 'blocks_section', 'namespace_empty_ids', 'misc_comparisons',
                 'contents_form_comment', 'contents_form_headed', 'contents_form_nested',
                 'contents_handed_over_then_filled', 'descriptions_completed_in_place_after_rendering',
+                'default_parameter_list_extended_in_place',
                 'tus_compiled', 'classes_compiled', 'compiler_invocations_g++')
     for _item, res in run.pmap(_worker, items, chunksize=1, timeout=900):
         absorb_batch(run, res)
